@@ -62,7 +62,7 @@ fn configs_for(prop: Prop, tier: Tier) -> Vec<Arc<dyn Runner>> {
         // empty vector - that is the C12 known finding itself; it is reported by the relike flavour, these configs are skipped here
         .filter(|e| !(cfg!(debug_assertions) && matches!(e.r.backend(), crate::caps::BK::Stack | crate::caps::BK::StackN) && e.r.elem_align() > 8))
         .filter(|e| prop != Prop::C18 || e.r.backend() == crate::caps::BK::Heap)
-        .filter(|e| prop != Prop::C17 || matches!(e.r.backend(), crate::caps::BK::Heap | crate::caps::BK::Empty))
+        .filter(|e| prop != Prop::C17 || e.r.rawparts())
         .map(|e| Arc::from(e.r)).collect()
 }
 
